@@ -233,32 +233,32 @@ hash file, with the hash of a *leaf* hidden when the leaf is in the backend's re
 `merkle_proof` read with `get_from_file` / `get_peak_from_file`, i.e. ignore the remove log;
 only the presence test of `merkle_proof` and `prune` use `get_hash`. -/
 
-structure Backend (H : Type) where
+structure VBackend (H : Type) where
   hashes : List H := []
   removed : List Nat := []
 
 /-- `ReadablePMMR::get_hash` of a view at `size` -/
-def vGetHash (b : Backend H) (size pos : Nat) : Option H :=
+def vGetHash (b : VBackend H) (size pos : Nat) : Option H :=
   if pos ≥ size then none
   else if isLeaf pos && b.removed.contains pos then none
   else b.hashes[pos]?
 
 /-- what `get_from_file` of a view at `size` can see -/
-def vFile (b : Backend H) (size : Nat) : List H := b.hashes.take size
+def vFile (b : VBackend H) (size : Nat) : List H := b.hashes.take size
 
-def vRoot (hf : HashFn α H) (b : Backend H) (size : Nat) : RootRes H := root hf (vFile b size)
+def vRoot (hf : HashFn α H) (b : VBackend H) (size : Nat) : RootRes H := root hf (vFile b size)
 
-def vPeaks (b : Backend H) (size : Nat) : List H := peakHashes (vFile b size)
+def vPeaks (b : VBackend H) (size : Nat) : List H := peakHashes (vFile b size)
 
 /-- `merkle_proof(pos)` of a view at `size` -/
-def vProof (hf : HashFn α H) (b : Backend H) (size pos : Nat) : Option (Nat × List H) :=
+def vProof (hf : HashFn α H) (b : VBackend H) (size pos : Nat) : Option (Nat × List H) :=
   if !isLeaf pos then none else
   match vGetHash b size pos with
   | none => none
   | some _ => merkleProof hf (vFile b size) pos
 
 /-- `PMMR::prune(pos)` on a view at `size`: `none` = error (not a leaf) -/
-def prune (b : Backend H) (size pos : Nat) : Option (Bool × Backend H) :=
+def vPrune (b : VBackend H) (size pos : Nat) : Option (Bool × VBackend H) :=
   if !isLeaf pos then none else
   match vGetHash b size pos with
   | none => some (false, b)
